@@ -231,25 +231,26 @@ PROPS = {
         trusted=S_COMMON + ["model: random generators (support only)", "model: sortedcontainers / deepcopy / f-string with one integer hole"],
     ),
     "C10": dict(
-        functions=[AL + "Alignment.take_until_limit", CT + "_compute_fast_alignment_job", CT + "Continuum.get_best_alignment",
-                   CT + "Continuum.copy", CT + "Continuum.remove", CT + "Continuum.__bool__"],
+        functions=[CT + "Continuum.get_fast_alignment", AL + "Alignment.take_until_limit", CT + "_compute_fast_alignment_job",
+                   CT + "Continuum.get_best_alignment", CT + "Continuum.copy", CT + "Continuum.remove", CT + "Continuum.__bool__",
+                   CT + "Continuum.avg_num_annotations_per_annotator", AL + "Alignment.__init__", AL + "UnitaryAlignment.n_tuple"],
         wiring_fast=True,
         oracles=[CT + "Continuum.get_fast_alignment", CT + "Continuum.measure_best_window_size"],
         bounded=[dict(oracle=CT + "Continuum.get_fast_alignment",
-                      what="get_fast_alignment / get_first_window are not under a discharged contract (assumed contract of get_fast_alignment at "
-                           "the job's call site): bounded runs on the real code with a stall detector (an iteration of the main loop that "
-                           "removes no unit) and a 20 s alarm: grids of 2-4 annotators x up to 4 units incl. nested / long overlapping units and "
-                           "empty annotators x window sizes 1..ceil(units/annotators)+1 x 6 dissimilarities: terminates, partition of the "
-                           "continuum's units, reported disorder == sum of unit disorders / x-bar, >= brute-force optimum (<= 8 units), == it when "
-                           "the window covers everything"),
+                      what="get_first_window is ASSUMED to return a fresh non-empty sub-continuum over the same annotators (zip / map / numpy code "
+                           "outside the encoding); that assumption, and the clauses 'disorder >= optimum' / '== optimum when the window covers "
+                           "everything' (consequences of optimality, not stated as contracts), are exercised on the real code with a stall "
+                           "detector and a 20 s alarm: grids of 2-4 annotators x up to 4 units incl. nested / long overlapping units and empty "
+                           "annotators x window sizes 1..ceil(units/annotators)+1 x 6 dissimilarities, brute-force optimum up to 8 units"),
                  dict(oracle=CT + "Continuum.measure_best_window_size",
                       what="the estimate itself (numpy closures) is outside the encoding: measure_best_window_size on random continua with a "
                            "stale finite best_window_size stored beforehand gives the verdict of a fresh measurement; the fast job calls "
                            "get_fast_alignment iff the stored window is finite")],
         design_ref="DESIGN.md section 4 C10 (F1-F4)",
-        not_decided=["termination / partition of get_fast_alignment for ALL inputs: only its progress lemma (take_until_limit always yields the "
-                     "leftmost unitary alignment of a non-empty alignment, each yielded one a distinct member) and the callee contracts "
-                     "(get_best_alignment partition, remove, copy) are proved; the loop composition is bounded",
+        not_decided=["get_first_window itself (assumed contract: fresh, non-empty, sub-continuum, same annotators in the same order); with it, "
+                     "termination (variant NumUnits(copy)) and partition-hood of get_fast_alignment are proved for all inputs and window sizes",
+                     "'never lower than the best alignment's disorder' and 'equal when the window covers everything': bounded only",
+                     "a continuum without any unit (disorder 0/0): outside requires",
                      "the quality of the window-size estimate (a performance heuristic)"],
         trusted=S_COMMON + T_SOLVER + ["model: sorted(list, key=...) returns a permutation (its order is not used)",
                                        "UnitaryAlignment.bounds abstract (np.inf arithmetic outside the encoding; no obligation depends on its value)",
